@@ -165,6 +165,7 @@ class Env:
         self.names = {}
         self.types = {}
         self.n = 0
+        self.reads = set()
 
     def bind(self, py, ty="nat"):
         if py in self.names and self.types[py] == ty:
@@ -190,7 +191,11 @@ def cexpr(n, env, qname="queue"):
     if isinstance(n, ast.Name):
         return env.get(n.id)
     p = _path(n)
-    if p == "self.singularities": return "sing", "natlist"
+    if p in ("self.singularities", "self.singu_set"):
+        # which of the two containers filled by __init__ is read: recorded (`pruneSingOf`), the bridge `prune_reads_singularities_source`
+        # demands that it has exactly the items of the constructor's argument, for every kind of iterable
+        env.reads.add(p.split(".")[1])
+        return "sing", "natlist"
     if p == "self.cut_edges": return "s.cut", "natlist"
     if isinstance(n, ast.Subscript):
         pv = _path(n.value)
@@ -394,6 +399,12 @@ def _compile_prune(tree):
     if pc.nfor != 2 or pc.nwhile != 1:
         raise TranslateError(f"_prune_edge_tree: expected the initialisation loop, one while loop and one inner loop (found {pc.nfor} for, {pc.nwhile} while)")
     # the inner loop is emitted while compiling the while body: order the auxiliary definitions by dependency
+    if len(pc.env.reads) != 1:
+        raise TranslateError(f"_prune_edge_tree: the singular vertices are tested against {sorted(pc.env.reads)} (expected exactly one of self.singularities / self.singu_set)")
+    which = {"singularities": "p.1", "singu_set": "p.2"}[next(iter(pc.env.reads))]
+    pc.aux.append("/-- the container `_prune_edge_tree` tests the singular vertices against, out of the pair (self.singularities, self.singu_set) that\n"
+                  f"`__init__` builds: `self.{next(iter(pc.env.reads))}` -/\n"
+                  f"def pruneSingOf (p : List Nat × List Nat) : List Nat := {which}\n")
     order = sorted(pc.aux, key=lambda t: 0 if "def pruneInitStep" in t else 1 if "def pruneInner" in t else 2)
     return "\n".join(order) + ("\n/-- `SingularityCutter._prune_edge_tree` -/\n"
                                "def pruneEdgeTree (nV : Nat) (E : List (Nat × Nat)) (sing : List Nat) (s : St) : St :=\n"
@@ -1104,13 +1115,82 @@ def dual_site():
     return r
 
 
+# ------------------------------------------------------------------------------------------------------------------
+# __init__: how `self.singularities` and `self.singu_set` are filled from the argument   (round 7)
+# ------------------------------------------------------------------------------------------------------------------
+def _compile_init(tree):
+    fn = T.find_def(tree, f"{CLS}.__init__")
+    params = [a.arg for a in fn.args.args]
+    if len(params) < 3 or params[:2] != ["self", "mesh"]: raise TranslateError(f"__init__: parameters {params}")
+    arg = params[2]
+    blk = None
+    for st in _strip(Norm().visit(copy.deepcopy(fn)).body):
+        if isinstance(st, ast.If) and isinstance(st.test, ast.Call) and getattr(st.test.func, "id", None) == "isinstance" and len(st.test.args) == 2 \
+                and isinstance(st.test.args[0], ast.Name) and st.test.args[0].id == arg and getattr(st.test.args[1], "id", None) == "list":
+            blk = st
+    if blk is None:
+        # no branch on the type: straight-line assignments
+        blk = ast.If(test=None, body=[s for s in _strip(fn.body) if isinstance(s, (ast.Assign, ast.AnnAssign)) and
+                                      _path((s.targets[0] if isinstance(s, ast.Assign) else s.target)) in ("self.singularities", "self.singu_set")], orelse=None)
+        if len(blk.body) < 1: raise TranslateError("__init__: the assignments of self.singularities / self.singu_set were not found")
+    def branch(stmts):
+        """-> list of (field, source) in order; source = 'arg' (the object itself), 'iter' (items obtained by iterating the argument now),
+        'list' (items of self.singularities as already stored)"""
+        out = []
+        for st in _strip(stmts):
+            if isinstance(st, ast.AnnAssign): st = ast.Assign([st.target], st.value)
+            if not (isinstance(st, ast.Assign) and len(st.targets) == 1): raise TranslateError(f"__init__: `{ast.unparse(st)[:60]}`")
+            tgt = _path(st.targets[0])
+            if tgt not in ("self.singularities", "self.singu_set"): raise TranslateError(f"__init__: assignment to {tgt} in the singularity block")
+            v = st.value
+            def src_of(n):
+                if isinstance(n, ast.Name) and n.id == arg: return "arg"
+                if _path(n) == "self.singularities": return "list"
+                return None
+            if src_of(v) == "arg": src = "same"                                                     # the caller's object itself
+            elif isinstance(v, ast.Call) and getattr(v.func, "id", None) in ("set", "list", "sorted") and len(v.args) == 1 and src_of(v.args[0]):
+                src = "iter" if src_of(v.args[0]) == "arg" else "list"
+            elif isinstance(v, ast.ListComp) and len(v.generators) == 1 and not v.generators[0].ifs and isinstance(v.elt, ast.Name) \
+                    and isinstance(v.generators[0].target, ast.Name) and v.elt.id == v.generators[0].target.id and src_of(v.generators[0].iter):
+                src = "iter" if src_of(v.generators[0].iter) == "arg" else "list"
+            else: raise TranslateError(f"__init__: `{ast.unparse(st)[:70]}`: value not recognised")
+            out.append(("sing" if tgt == "self.singularities" else "set", src))
+        if sorted(f for f, _ in out) != ["set", "sing"] and [f for f, _ in out] != ["sing"]:
+            raise TranslateError(f"__init__: a branch assigns {[f for f, _ in out]}")
+        return out
+    def emit(br):
+        lines = []
+        for f, src in br:
+            if f == "sing":
+                if src == "same": lines.append("    let sing := arg.items")
+                elif src == "iter": lines += ["    let r := iterate arg", "    let arg := r.2", "    let sing := r.1"]
+                else: raise TranslateError("__init__: self.singularities built from itself")
+            else:
+                if src in ("same", "iter"): lines += ["    let r := iterate arg", "    let arg := r.2", "    let sset := setOf r.1"]
+                else: lines.append("    let sset := setOf sing")
+        if not any(f == "set" for f, _ in br): lines.append("    let sset : List Nat := []")
+        if [f for f, _ in br][0] == "set":
+            # the set is built first: `sing` must be bound before use in the result
+            pass
+        return "\n".join(lines) + "\n    (sing, sset)"
+    lb = branch(blk.body)
+    if blk.test is None:
+        body = "  (\n" + emit(lb) + ")"
+    else:
+        ob = branch(blk.orelse)
+        body = "  if isList then (\n" + emit(lb) + ")\n  else (\n" + emit(ob) + ")"
+    return ("/-- `SingularityCutter.__init__`: what `self.singularities` (first component) and `self.singu_set` (second) receive; the argument is an\n"
+            "iterable that may be walked only once (`Iter`); `isList` = `isinstance(singularities, list)` -/\n"
+            "def initSingularities (isList : Bool) (arg : Iter) : List Nat × List Nat :=\n" + body + "\n")
+
+
 HEADER = ("import Mouette.Model.CutSource\nnamespace Mouette.Generated.C16\nopen Mouette Mouette.Cutting Mouette.CutSrc\n\n")
 
 
 def translate_all():
     """-> sha of Generated/C16Cut.lean; raises TranslateError when a shape is not recognised"""
     tree, _ = T.load(FILE)
-    parts = [_compile_build_tree(tree), _compile_prune(tree), _compile_run_variant(tree, "_run_no_features", "runNoFeatures"),
+    parts = [_compile_init(tree), _compile_build_tree(tree), _compile_prune(tree), _compile_run_variant(tree, "_run_no_features", "runNoFeatures"),
              _compile_run_variant(tree, "_run_with_features", "runWithFeatures"), _compile_run(tree), _compile_mesh_loops(tree)]
     _, sha = T.write_generated("C16Cut", "\n".join(parts) + "\nend Mouette.Generated.C16\n", header=HEADER)
     return sha
@@ -1121,7 +1201,8 @@ def sites():
     would make unrelated bridges fail), otherwise the previous file stays and the unrecognised sites are broken obligations"""
     tree, _ = T.load(FILE)
     recs, ok = [], True
-    for name, fn in (("cutting.py: SingularityCutter._build_cut_edges_tree", lambda: _compile_build_tree(tree) and "ok"),
+    for name, fn in (("cutting.py: SingularityCutter.__init__ (self.singularities / self.singu_set from the argument)", lambda: _compile_init(tree) and "ok"),
+                     ("cutting.py: SingularityCutter._build_cut_edges_tree", lambda: _compile_build_tree(tree) and "ok"),
                      ("cutting.py: SingularityCutter._prune_edge_tree", lambda: _compile_prune(tree) and "ok"),
                      ("cutting.py: SingularityCutter._run_no_features", lambda: _compile_run_variant(tree, "_run_no_features", "runNoFeatures") and "ok"),
                      ("cutting.py: SingularityCutter._run_with_features", lambda: _compile_run_variant(tree, "_run_with_features", "runWithFeatures") and "ok"),
